@@ -221,6 +221,7 @@ type observation struct {
 	Cleanups         []cleanRow
 	SpotStarts       map[string]int64
 	SpotEnds         map[string]int64
+	SpotGrace        map[string]int64
 	Csv              []csvRow
 	Survivors        []survivor
 	Output           string
@@ -367,6 +368,7 @@ loop:
 	// ledger
 	obs.SpotStarts = map[string]int64{}
 	obs.SpotEnds = map[string]int64{}
+	obs.SpotGrace = map[string]int64{}
 	pending := map[string]int{}
 	if f, err := os.Open(ledger); err == nil {
 		sc := bufio.NewScanner(f)
@@ -422,6 +424,8 @@ loop:
 				ts, _ := strconv.ParseInt(w[3], 10, 64)
 				if w[2] == "E" {
 					obs.SpotEnds[w[0]] = ts
+				} else if w[2] == "G" {
+					obs.SpotGrace[w[0]] = ts
 				} else {
 					obs.SpotStarts[w[0]] = ts
 				}
@@ -688,10 +692,19 @@ func genLedgerPlay(rng *rand.Rand, prop string, i int) (*playDef, *cmd.VerifCfg)
 				}
 			}
 			p.SpotKind = []int{0, 1, 2, 2, 1, 0, 3}[rng.Intn(7)]
+			if i == 4 || i == 5 {
+				// regression cases of commit d415a46 (`spotlight true`, spotlights exiting 0 after a delay): always run
+				p.SpotKind = 2
+			}
 			switch p.SpotKind {
 			case 2:
 				for _, a := range p.Actors {
 					p.Spot[a] = pick2(rng, "true", fmt.Sprintf("sleep %s", durArg(p.TempoMs*(1+rng.Intn(3))/2)))
+					if i == 4 {
+						p.Spot[a] = "true"
+					} else if i == 5 {
+						p.Spot[a] = fmt.Sprintf("sleep %s", durArg(p.TempoMs*(1+rng.Intn(3))/2))
+					}
 				}
 			case 3:
 				for _, a := range p.Actors {
@@ -801,12 +814,17 @@ func genC07(rng *rand.Rand, tier string) []*playDef {
 		p.Spot["x2"] = "trap \"\" HUP; sleep 300"
 		p.SpotKind = 5
 		add(p, "spotlight-ignores-hup-child", "-")
-		if !quick || rng.Intn(2) == 0 {
-			p = baseC07("")
-			p.Spot["x2"] = "(trap \"\" HUP; sleep 300) & sleep 300"
-			p.SpotKind = 6
-			add(p, "spotlight-ignores-hup-bgchild", "-")
-		}
+		// regression case of commit c7b3a08: always run
+		p = baseC07("")
+		p.Spot["x2"] = "(trap \"\" HUP; sleep 300) & sleep 300"
+		p.SpotKind = 6
+		add(p, "spotlight-ignores-hup-bgchild", "-")
+	}
+	// 3b. a spotlight that handles SIGHUP (writes a marker, exits 0): it must get the chance
+	{
+		p := baseC07("")
+		p.Spot["x2"] = "trap \"echo \\$ME P G \\$(date +%s%N) >>\\$LEDGER; exit 0\" HUP; sleep 300 & wait"
+		add(p, "spotlight-graceful-hup", "-")
 	}
 	// 4. cleanup fails first / second time
 	for _, n := range []int{1, 2} {
@@ -967,7 +985,7 @@ func coqLedgerCase(c *caseOut) string {
 var faultKinds = []string{"none", "action-fails", "spotlight-fails", "spotlight-ignores-hup-leader", "spotlight-ignores-hup-child",
 	"spotlight-ignores-hup-bgchild", "cleanup-fails-1", "cleanup-fails-2", "audit-foul-S", "expr-error", "expr-error-S",
 	"sigint", "sigterm", "action-hangs-sigint", "cleanup-hangs-1", "action-hangs-peer-fails", "action-hangs-sigterm",
-	"cleanup-hangs-2", "action-hangs-spotlight-fails", "action-hangs-audit-foul-S"}
+	"cleanup-hangs-2", "action-hangs-spotlight-fails", "action-hangs-audit-foul-S", "spotlight-graceful-hup"}
 
 func faultIdx(f string) int {
 	for i, k := range faultKinds {
@@ -1026,9 +1044,13 @@ func coqFaultCase(c *caseOut) string {
 		}
 		totalWait += mx
 	}
-	return fmt.Sprintf("mkFcase %d %d %s %s %s %s %s %s %s %s %s %d",
+	grace := int64(-1)
+	for _, t := range o.SpotGrace {
+		grace = t
+	}
+	return fmt.Sprintf("mkFcase %d %d %s %s %s %s %s %s %s %s %s %s %d",
 		faultIdx(c.Def.Fault), sig, vh.Bool(o.Exited), vh.Z(o.WallMs), vh.Z(int64(o.Exit)),
-		vh.List(per), vh.List(acts), vh.List(spots), vh.Z(o.SigSentNs), vh.Z(mark), vh.Z(totalWait), len(o.Survivors))
+		vh.List(per), vh.List(acts), vh.List(spots), vh.Z(o.SigSentNs), vh.Z(mark), vh.Z(totalWait), vh.Z(grace), len(o.Survivors))
 }
 
 func main() {
